@@ -134,9 +134,9 @@ where
       x.1.call(());
     });
     self.unscribers.write().unwrap().clear();
-    if self.subscriber.is_subscribed() {
-      self.subscriber.unsubscribe();
-    }
+    // also after a terminal: releases the subscriber's callbacks and its teardown action
+    // (which owns a clone of this controller)
+    self.subscriber.unsubscribe();
     let on_finalize = &mut *self.on_finalize.write().unwrap();
     if let Some(f) = on_finalize {
       f.call(());
